@@ -9,6 +9,7 @@
 (*     use  in {encryption, omitted, signing}                              *)
 (*     cert in {validRSA, validEC, malformedBase64, badDER, emptyString,   *)
 (*              whitespaceOnly, noX509CertificateElement}                  *)
+(*     em   in the classes of EncryptionMethod lists (EMs below)           *)
 (* The step machine mirrors getSPEncryptionCert (identity_provider.go:982) *)
 (* statement by statement - two passes over the descriptors, then decode,  *)
 (* parse, encrypt - with a Panic sink.  It is run in two instantiations:   *)
@@ -26,6 +27,8 @@
 EXTENDS Integers, Sequences, FiniteSets, TLC, Json
 
 CONSTANTS MaxDesc,     \* longest layout (3)
+          EmMaxDesc,   \* layouts up to this length carry every combination of EncryptionMethod lists
+          EmLong,      \* TRUE: longer layouts carry every list class too, the same on all their descriptors
           Parts,       \* subset of {"idp", "sp"}
           Selection    \* "pinned" (first pass stops at the first use="encryption" descriptor, whatever it holds)
                        \* | "fixed" (first pass skips descriptors without a non-empty first certificate)
@@ -48,9 +51,18 @@ Uses  == {"encryption", "omitted", "signing"}
 \* issuer - the SP holds the private key of the first only
 Certs == {"validRSA", "validRSAChain", "validEC", "malformedBase64", "badDER", "emptyString", "whitespaceOnly", "noX509CertificateElement"}
 GoodRSA(ct) == ct \in {"validRSA", "validRSAChain"}
-Desc(u, ct) == [use |-> u, cert |-> ct]
-Descs   == { Desc(u, ct) : u \in Uses, ct \in Certs }
-Layouts == UNION { [1..n -> Descs] : n \in 0..MaxDesc }
+\* the EncryptionMethod children of the KeyDescriptor (what the SP says it can decrypt).  The IdP
+\* encrypts with aes128-cbc / rsa-oaep-mgf1p whatever is listed; no action below reads the field - a
+\* descriptor advertises its key with any list, and the statement knows no fallback to plaintext
+EMs == {"none",            \* no EncryptionMethod child
+        "aes128cbc",       \* lists the cipher the IdP uses (next to others)
+        "aes256cbcOnly",   \* lists block ciphers, not that one
+        "gcmOaepOnly"}     \* lists aes128-gcm and a key transport only
+Desc(u, ct, e) == [use |-> u, cert |-> ct, em |-> e]
+Descs   == { Desc(u, ct, e) : u \in Uses, ct \in Certs, e \in EMs }
+DescsOf(e) == { Desc(u, ct, e) : u \in Uses, ct \in Certs }
+Layouts == UNION { [1..n -> Descs] : n \in 0..EmMaxDesc }
+           \cup UNION { [1..n -> DescsOf(e)] : n \in (EmMaxDesc + 1)..MaxDesc, e \in (IF EmLong THEN EMs ELSE {"none"}) }
 
 HasElement(d) == d.cert # "noX509CertificateElement"
 \* the text of X509Certificates[0] as xml.Unmarshal delivers it ("" for an empty element)
